@@ -1,4 +1,5 @@
 CONSTANTS P = 43  A = 0  B = 7  Gx = 2  Gy = 12  N = 31
+          SecLens <- LensT
           Stage = "sec256"
           SecPfx = {4}  SecXs = {0}  SecYs = {0}  SecLongYs = {0} DerPos <- PosNone  DerExt <- One0  DerExtLen = 0
 SPECIFICATION Spec
